@@ -9,6 +9,11 @@
 (*   S      scale: real length = integer / S                               *)
 (*   types  sequence of species ids (1..K, every id present)               *)
 (*   frames sequence of frames, a frame = sequence of integer positions    *)
+(*   Hs     (optional) one cell per frame: a sheared cell whose tilts       *)
+(*          change from frame to frame at constant edge lengths (same       *)
+(*          diagonal as H, hence same volume and same number of bins)       *)
+(*   tys    (optional) species labels per frame: labels move between        *)
+(*          particles at constant composition (identity-swap trajectories)  *)
 (*   wn     bin width in scaled units (integer):  width = wn / S           *)
 (*   sharp  1: every floating-point operation on the way to the bin index  *)
 (*             is exact (dyadic scope) - a distance exactly on an inner    *)
@@ -29,6 +34,16 @@ NFrames(c) == Len(c.frames)
 Species(c) == Range(c.types)
 NSpecies(c) == Cardinality(Species(c))
 CountOf(c, a) == Cardinality({i \in 1..NPart(c) : c.types[i] = a})
+\* cell and species labels of frame f
+FrameH(c, f)  == IF "Hs" \in DOMAIN c THEN c.Hs[f] ELSE c.H
+TypesAt(c, f) == IF "tys" \in DOMAIN c THEN c.tys[f] ELSE c.types
+\* well-formedness of the optional per-frame data: same edge lengths, same composition
+PerFrameOK(c) ==
+  /\ "Hs" \in DOMAIN c => /\ Len(c.Hs) = NFrames(c)
+                           /\ \A f \in 1..NFrames(c) : IsLowerTri(c.Hs[f]) /\ \A k \in 1..NDim(c) : c.Hs[f][k][k] = c.H[k][k]
+  /\ "tys" \in DOMAIN c => /\ Len(c.tys) = NFrames(c)
+                            /\ \A f \in 1..NFrames(c) : \A a \in Species(c) :
+                                  Cardinality({i \in 1..NPart(c) : c.tys[f][i] = a}) = CountOf(c, a)
 
 LMin(c)  == SetMin({c.H[k][k] : k \in 1..NDim(c)})
 NBins(c) == LMin(c) \div (2 * c.wn)
@@ -70,7 +85,7 @@ BinSetOf(d2, wn, nb, sharp) ==
 
 PairBins(c, f, i, j) ==
   LET v == VSub(c.frames[f][j], c.frames[f][i])
-  IN  UNION {BinSetOf(d2, c.wn, NBins(c), c.sharp) : d2 \in Dist2Set(c.H, v, c.ppp)}
+  IN  UNION {BinSetOf(d2, c.wn, NBins(c), c.sharp) : d2 \in Dist2Set(FrameH(c, f), v, c.ppp)}
 
 (***************************************************************************)
 (* Columns.  A column is <<0,0>> (total) or <<a,b>> with a <= b.           *)
@@ -116,8 +131,8 @@ Accumulate(c, cols, ps, m, stop, acc) ==
   IF m > stop \/ acc.nt < 0 THEN acc
   ELSE
     LET t  == ps[m]
-        a  == c.types[t[2]]
-        b  == c.types[t[3]]
+        a  == TypesAt(c, t[1])[t[2]]
+        b  == TypesAt(c, t[1])[t[3]]
         bs == PairBins(c, t[1], t[2], t[3])
         sure == Cardinality(bs) = 1
         upd(h, q, k, x) == [h EXCEPT ![q][k + 1] = @ + x]
@@ -198,6 +213,8 @@ Case(c) ==
   IN  [ m      |-> "PairHist",
         H      |-> c.H, ppp |-> c.ppp, S |-> c.S, types |-> c.types, frames |-> c.frames,
         wn     |-> c.wn, sharp |-> c.sharp,
+        Hs     |-> [f \in 1..NFrames(c) |-> FrameH(c, f)],
+        tys    |-> [f \in 1..NFrames(c) |-> TypesAt(c, f)],
         nbins  |-> nb,
         nbins_on_integer |-> NBinsOnInteger(c),
         dyadic_scale |-> IsPow2(c.S),
